@@ -17,16 +17,16 @@ M = [
     ("m23", "stage2_build_tape_amd64.go", "if len(buf)-int(maxStringSize) < 64 {", "if len(buf)-int(maxStringSize) < 32 {", "C05", "S6"),
     ("m28", "parse_number.go", "const maxIntLen = 20", "const maxIntLen = 19", "C03", "P2.parseNumber.long"),
     ("m29", "parse_number.go", "\t\tif errors.Is(err, strconv.ErrRange) {\n\t\t\tfloatTag |= uint64(FloatOverflowedInteger)\n\t\t}\n\n\t\tif found&isMinusFlag == 0 {",
-     "\t\tif found&isMinusFlag == 0 {", "C03", "P2.parseNumber.long"),
+     "\t\tif found&isMinusFlag == 0 {", "C03", "P2.parseNumber.long.L21"),
     ("m30", "parse_number.go", "if len(buf) < i+2 || isNumberRune[buf[i+1]]&isDigitFlag == 0 {", "if len(buf) < i+1 || isNumberRune[buf[i+1]]&isDigitFlag == 0 {", "C03", "P2.parseNumber.L4"),
     ("m31", "parsed_json.go", "\t\t\tif i.cur <= 0 {\n\t\t\t\ti.moveToEnd()\n\t\t\t\treturn TagEnd\n\t\t\t}", "\t\t\tif i.cur < 0 {\n\t\t\t\ti.moveToEnd()\n\t\t\t\treturn TagEnd\n\t\t\t}", "C19", "Z2.tags1.vals1"),
-    ("m32", "parsed_json.go", "i.addNext = int(i.cur) - i.off\n\t\t}\n\t}\n}", "i.addNext = int(i.cur) - i.off - 1\n\t\t}\n\t}\n}", "C02", "T1.Advance.T6"),
+    ("m32", "parsed_json.go", "i.addNext = int(i.cur) - i.off\n\t\t}\n\t}\n}", "i.addNext = int(i.cur) - i.off - 1\n\t\t}\n\t}\n}", "C02", "T1.Advance.T7"),
     ("m33", "parsed_json.go", "i.tape.Tape[j] = uint64(TagNop)<<JSONTAGOFFSET | (i.cur - uint64(j))", "i.tape.Tape[j] = uint64(TagNop)<<JSONTAGOFFSET | (i.cur - uint64(j) - 1)", "C13", "T4.Set.T5"),
     ("m34", "parsed_json.go", "i.cur = ((uint64(TagString) << JSONTAGOFFSET) | STRINGBUFBIT) | uint64(len(i.tape.Strings.B))", "i.cur = (uint64(TagString) << JSONTAGOFFSET) | uint64(len(i.tape.Strings.B))", "C13", "T4.Set.T6"),
     ("m35", "parsed_json.go", "for i := range shouldEscape[:0x20] {", "for i := range shouldEscape[:0x1f] {", "C10", "Eesc.len1"),
     ("m36", "parsed_json.go", "\t\t\tswitch i.t {\n\t\t\tcase TagObjectEnd:\n\t\t\tdefault:\n\t\t\t\tdst = append(dst, ',')\n\t\t\t}\n\t\t}\n\t}\n\tif len(stack) > 1 {",
-     "\t\t\tdst = append(dst, ',')\n\t\t}\n\t}\n\tif len(stack) > 1 {", "C10", "T6.MarshalRoot.T6"),
-    ("m39", "parsed_object.go", "skip := uint64(end - startO)", "skip := uint64(end - startO - 1)", "C14", "T5.Delete.T6"),
+     "\t\t\tdst = append(dst, ',')\n\t\t}\n\t}\n\tif len(stack) > 1 {", "C10", "T6.MarshalRoot.T7"),
+    ("m39", "parsed_object.go", "skip := uint64(end - startO)", "skip := uint64(end - startO - 1)", "C14", "T5.Delete.T7"),
     ("m40", "parsed_object.go", "\t\tif int(length) != len(key) {\n\t\t\t// Skip the value.\n\t\t\tt := tmp.Advance()\n\t\t\tif t == TypeNone {\n\t\t\t\treturn nil\n\t\t\t}",
      "\t\tif int(length) < len(key) {\n\t\t\t// Skip the value.\n\t\t\tt := tmp.Advance()\n\t\t\tif t == TypeNone {\n\t\t\t\treturn nil\n\t\t\t}", "C12", "T3.FindKey"),
     ("m41", "parsed_serialize.go", "binary.LittleEndian.PutUint64(tmp[:], payload-uint64(off))", "binary.LittleEndian.PutUint64(tmp[:], payload-uint64(off)-1)", "C11", "Z1.RoundTrip.T5"),
